@@ -343,6 +343,15 @@ fn check_dict_getters(ctx: &mut Ctx, rng: &mut Rng, m: &MVal, v: &Value) {
     if d.ts().is_some() != (kind == 12) {
         ctx.violation("dict:ts:kind", &format!("ts() presence wrong for mod of kind {}", m.kind_name()), json!({}));
     }
+    // the shortcuts read exactly their own tag: the same value under a neighbouring name is not found
+    let mut map = BTreeMap::new();
+    for k in ["ts", "modified", "mod2", "Mod", "ID", "id2", "ref", "idRef"] {
+        map.insert(k.to_string(), v.clone());
+    }
+    let d = Dict::from(map);
+    if d.ts().is_some() || d.id().is_some() || !d.safe_id().value.is_empty() {
+        ctx.violation("dict:shortcut:other-tag", &format!("id()/ts() found a {} stored under a tag that is neither 'id' nor 'mod'", m.kind_name()), json!({}));
+    }
 }
 
 fn check_grid_build(ctx: &mut Ctx, rng: &mut Rng, idx: u64) {
